@@ -295,7 +295,7 @@ class PPingPong(Pattern):
         self.rpos = 0
 
     def __next__(self):
-        if self.pos == 1 and self.rpos >= self.count:
+        if (self.pos == 1 and self.rpos >= self.count) or self.pos >= len(self.values):
             raise StopIteration
 
         rv = self.values[self.pos]
